@@ -40,6 +40,7 @@ type Prog struct {
 	Problems []string // unresolved anchors and other reasons for "undecided"
 
 	fiCache  map[*ssa.Function]*FuncInfo
+	fiDeep   map[*ssa.Function]*FuncInfo
 	modCache map[*ssa.Function]map[memKey]bool
 }
 
